@@ -115,7 +115,7 @@ func runC14(tier string) int {
 			if heavy > 1 || (heavy == 1 && L > 2) {
 				return // one 9999-fold expansion per list, short lists only
 			}
-			for form := 0; form < 2; form++ { // 0 movement statement, 1 moves()
+			for form := 0; form < 3; form++ { // 0 movement statement, 1 moves(), 2 two moves() that differ in the length of the last run
 				for sep := 0; sep < 3; sep++ {
 					var parts []string
 					for _, e := range seq {
@@ -134,10 +134,24 @@ func runC14(tier string) int {
 						}
 					}
 					var src, label string
-					if form == 0 {
+					var seq2 []mvElem
+					switch form {
+					case 0:
 						src, label = "movement M {\n\t\t"+list+"\n}\n", "M"
-					} else {
+					case 1:
 						src, label = "script S {\n\tapplymovement(1, moves("+list+"))\n}\n", "S_Movement_0"
+					default:
+						if bad || heavy > 0 || sep != 0 {
+							continue
+						}
+						last := "a"
+						for _, e := range seq {
+							if len(e.steps) > 0 {
+								last = e.steps[len(e.steps)-1]
+							}
+						}
+						seq2 = append(append([]mvElem{}, seq...), mvElem{src: last, steps: []string{last}})
+						src, label = "script S {\n\tapplymovement(1, moves("+list+"))\n\tapplymovement(2, moves("+list+" "+last+"))\n}\n", "S_Movement_0"
 					}
 					res := comp.Compile(src, comp.Opts{Optimize: true, Switches: sw})
 					r.Add("evaluations", 1)
@@ -174,6 +188,13 @@ func runC14(tier string) int {
 						fail("C14:rejected:"+firstWords(res.Err.Error(), 5)+tag, "well-formed list rejected: "+res.Err.Error())
 						continue
 					}
+					if seq2 != nil {
+						want2 := expectMovementBlock("S_Movement_1", seq2)
+						got2, ok2 := blockAfter(res.Out, "S_Movement_1")
+						if !ok2 || strings.Join(got2, "\n") != strings.Join(want2, "\n") || !strings.Contains(res.Out, "\tapplymovement 2, S_Movement_1\n") {
+							fail("C14:second-moves-block-differs", fmt.Sprintf("second moves() block %q, want %q", clip(strings.Join(got2, "\n"), 200), clip(strings.Join(want2, "\n"), 200)))
+						}
+					}
 					want := expectMovementBlock(label, seq)
 					got, ok := blockAfter(res.Out, label)
 					if !ok || strings.Join(got, "\n") != strings.Join(want, "\n") {
@@ -204,7 +225,7 @@ func runC14(tier string) int {
 	r.Assume("multipliers with a leading zero are not generated (octal vs decimal is not specified)",
 		"expected expansion is computed by the generator: N copies in order, cut after the first step_end, exactly one step_end last")
 	return r.Finish(r.Get("evaluations"), r.Get("nontrivial"),
-		"every movement list of <= L elements over 42 element kinds (3 steps x 12 multipliers incl. 0, negative, 9999, 10000, hex and a 20-digit number; 6 poryswitch-selected segments in colon, brace and nested forms) x statement / moves() form x 3 separator styles; every mart list of <= M items over plain items, ITEM_NONE, constants (one equal to ITEM_NONE) and poryswitch segments; non-trivial = a multiplier > 1 or a multi-step segment is present")
+		"every movement list of <= L elements over 42 element kinds (3 steps x 12 multipliers incl. 0, negative, 9999, 10000, hex and a 20-digit number; 6 poryswitch-selected segments in colon, brace and nested forms) x statement / moves() form (and two moves() in one script that differ only in the length of the last run) x 3 separator styles; every mart list of <= M items over plain items, ITEM_NONE, constants (one equal to ITEM_NONE) and poryswitch segments; non-trivial = a multiplier > 1 or a multi-step segment is present")
 }
 
 func c14Marts(r *harness.Run, tier string, sw map[string]string) {
